@@ -84,6 +84,7 @@ def get(prog):
             continue
         probes[(ai.kname[kbit],)] = ((1 << kbit), A, A, A, 0, 0)
         probes[(ai.kname[kbit], "SEMICOLON", "SEMICOLON")] = ((1 << kbit), semi, semi, A, 0, 0)
+        probes[(ai.kname[kbit], "SEMICOLON", "~SEMICOLON")] = ((1 << kbit), semi, A & ~semi, A, 0, 0)      # the same one-token statement followed by anything but `;`
     probe_keys = {}
     for pr, w in probes.items():
         for fn, args in ((ITEM, (grammar_ai.PARSER, grammar_ai.B_F)), (STMT, (grammar_ai.PARSER,))):
